@@ -5,3 +5,4 @@ import ZeepProofs.C10
 import ZeepProofs.C06
 import ZeepProofs.C16
 import ZeepProofs.C17
+import ZeepProofs.C18
